@@ -33,6 +33,13 @@ func syncRun(w *bufio.Writer, rng *rand.Rand, run int, o syncOpts, stats map[str
 	dyn := rng.Intn(3) == 0
 	tpb := time.Second
 	maxTpb := 3 * time.Second
+	varyMax := false // c16: the application reports another maximum block time at every second height (it may change with every block)
+	maxAt := func(h uint32) time.Duration {
+		if h%2 == 0 {
+			return maxTpb + maxTpb/2
+		}
+		return maxTpb
+	}
 	silent := map[int]bool{}
 	cut := map[int]bool{}
 	cutFrom, cutLen := -1, 0
@@ -77,6 +84,7 @@ func syncRun(w *bufio.Writer, rng *rand.Rand, run int, o syncOpts, stats map[str
 			maxTpb = tpb + tpb/2
 		}
 		txMode = rng.Intn(4)
+		varyMax = rng.Intn(3) == 0
 	}
 	fmt.Fprintf(w, "RUN %d N %d CFG 1000000 %d %d\n", run, N, amev, b2i(dyn))
 	stats[fmt.Sprintf("%s:N=%d", o.mode, N)]++
@@ -91,6 +99,9 @@ func syncRun(w *bufio.Writer, rng *rand.Rand, run int, o syncOpts, stats map[str
 			n.mon = mon
 			n.tr = newTracker()
 			n.tpb, n.maxTpb = tpb, maxTpb
+			if varyMax {
+				n.maxTpbAt = maxAt
+			}
 			if o.mode == "c16" {
 				n.usePool = true
 				if txMode == 1 {
@@ -143,6 +154,7 @@ func syncRun(w *bufio.Writer, rng *rand.Rand, run int, o syncOpts, stats map[str
 	type prop struct {
 		at    time.Time
 		empty bool
+		max   time.Duration // the maximum block time of the proposal's height
 	}
 	var props []prop
 	lastHeightSeen := uint32(0)
@@ -157,7 +169,11 @@ func syncRun(w *bufio.Writer, rng *rand.Rand, run int, o syncOpts, stats map[str
 				}
 				if p.T == dbft.PrepareRequestType && p.Hgt > lastHeightSeen {
 					lastHeightSeen = p.Hgt
-					props = append(props, prop{n.tm.now, len(p.Body.(prepReq).hashes) == 0})
+					mx := maxTpb
+					if varyMax {
+						mx = maxAt(p.Hgt)
+					}
+					props = append(props, prop{n.tm.now, len(p.Body.(prepReq).hashes) == 0, mx})
 				}
 				for _, m := range nodes {
 					j := m.id
@@ -412,8 +428,8 @@ func syncRun(w *bufio.Writer, rng *rand.Rand, run int, o syncOpts, stats map[str
 				if gap < tpb {
 					mon.nhit(rep, "C16", "proposals-too-close", fmt.Sprintf("proposals %d and %d are %v apart, minimum %v", i-1, i, gap, tpb))
 				}
-				if props[i].empty && gap < maxTpb {
-					mon.nhit(rep, "C16", "empty-proposal-early", fmt.Sprintf("empty proposal %d only %v after the previous one, maximum block time %v", i, gap, maxTpb))
+				if props[i].empty && gap < props[i].max {
+					mon.nhit(rep, "C16", "empty-proposal-early", fmt.Sprintf("empty proposal %d only %v after the previous one, maximum block time of that height %v", i, gap, props[i].max))
 				}
 			}
 		}
